@@ -1,5 +1,6 @@
 import OxiddModel.Reorder.SwapStoreSeq
 import OxiddModel.Reorder.SwapStoreNeg
+import OxiddModel.Reorder.SetOrderProof
 
 /-!
 # C08 on the node store: headline theorems
@@ -204,12 +205,13 @@ example : swapTrees [0, 1, 0] tIte =
     .node 0 (.node 1 (.leaf true) (.node 2 (.leaf false) (.leaf true)))
       (.node 1 (.node 2 (.leaf true) (.leaf false)) (.leaf false)) := by decide
 
-/-- **`setVarOrderS_spec`.** `set_var_order` as the bubble sort of `Properties.lean`: let `seq`
-give the target position of every current level (`sort_order`) and let the adjacent swaps emitted
-by `bubble_sort` be executed by `level_down`. Then (1) the invariant holds afterwards, (2) the
+/-- **`bubbleDownS_spec`.** The bubble sort of `Properties.lean` executed with `level_down` (the
+simplified reading of `set_var_order`; the real one with lazy level numbers is
+`setVarOrderS_correct` below): let `seq` give the target position of every current level
+(`sort_order`) and let the adjacent swaps emitted by `bubble_sort` be executed by `level_down`. Then (1) the invariant holds afterwards, (2) the
 levels are in the requested order — replaying the swaps sorts `seq` —, and (3) every handle denotes
 the same function of the variables as before, by a diagram in normal form. -/
-theorem setVarOrderS_spec {ext : Nat → Nat} {s : SStore} {al : Heap → Nat}
+theorem bubbleDownS_spec {ext : Nat → Nat} {s : SStore} {al : Heap → Nat}
     {ord : List Nat → List Nat} (hal : AllocOK al) (hord : OrderOK ord) (hinv : Inv ext s)
     (seq l2v : List Nat) (hseq : seq.length = s.tables.length)
     (hl : l2v.length = s.tables.length) :
@@ -233,7 +235,131 @@ theorem setVarOrderS_spec {ext : Nat → Nat} {s : SStore} {al : Heap → Nat}
 example : (bubbleSort 3 [2, 1, 0]).2 = [0, 1, 0] := by simp [bubbleSort, bubblePass]
 
 example : Inv extIte (swapsS Heap.firstFree id sIte (bubbleSort [2, 1, 0].length [2, 1, 0]).2) :=
-  (setVarOrderS_spec allocOK_firstFree orderOK_id sIte_inv [2, 1, 0] [0, 1, 2] rfl rfl).1
+  (bubbleDownS_spec allocOK_firstFree orderOK_id sIte_inv [2, 1, 0] [0, 1, 2] rfl rfl).1
+
+
+/-! ## the real `set_var_order`: lazy level numbers, non-empty levels only
+
+`setVarOrderS` (`SetOrderStore.lean`) mirrors `set_var_order_common`: `sort_order`, bubble sort
+over the **non-empty** level views where each swap is the general
+`level_swap(u, l, to_pre[u], to_pre[l])` (`u < l`, only empty views in between, level numbers in
+the nodes *not* updated), the node-free second step that moves all views to their target
+positions, and `update_levels`. `SwapStoreGen.lean` proves the general lazy swap correct
+(`ResG.invL`, `ResG.eval`), `SetOrderProof.lean` the rest. -/
+
+/-- every live slot of a store satisfying the invariant denotes a diagram -/
+theorem Inv.total {ext : Nat → Nat} {s : SStore} (hinv : Inv ext s) :
+    ∀ m k nd, s.h.sh k = some nd → s.tables.length - nd.level ≤ m →
+      ∃ t, Denotes s.h.abs (.inner k) t := by
+  intro m
+  induction m with
+  | zero =>
+    intro k nd hk hm
+    have := (hinv.tbl_iff nd.level k).mpr ⟨nd, hk, rfl⟩
+    rw [table_of_ge (by omega)] at this; cases this
+  | succ m ih =>
+    intro k nd hk hm
+    have hlv : nd.level < s.tables.length := by
+      apply Classical.byContradiction
+      intro hc
+      have := (hinv.tbl_iff nd.level k).mpr ⟨nd, hk, rfl⟩
+      rw [table_of_ge (by omega)] at this; cases this
+    have hchild : ∀ c, (c = nd.t ∨ c = nd.e) → ∃ t, Denotes s.h.abs c t := by
+      intro c hc
+      cases c with
+      | term b => exact ⟨_, .term⟩
+      | inner j =>
+        obtain ⟨mj, hmj, hlt⟩ := hinv.ordered k nd hk j
+          (by rcases hc with h | h; exact Or.inl h.symm; exact Or.inr h.symm)
+        exact ih j mj hmj (by omega)
+    obtain ⟨ta, hta⟩ := hchild nd.t (Or.inl rfl)
+    obtain ⟨tb, htb⟩ := hchild nd.e (Or.inr rfl)
+    obtain ⟨l, a, b⟩ := nd
+    exact ⟨_, den_inner hk hta htb⟩
+
+theorem Inv.live_of_ext {ext : Nat → Nat} {s : SStore} (hinv : Inv ext s) {k : Nat}
+    (hk : 0 < ext k) : s.h.sh k ≠ none := by
+  intro hn
+  have := hinv.rc k
+  simp only [live01, hn] at this
+  rw [rcOf_of_none (sh_eq_none.mp hn)] at this
+  simp at this; omega
+
+
+/-- **`setVarOrderS_correct`** (C08 for `set_var_order`). For a duplicate-free request naming
+variables of the manager, and for every iteration order of the hash tables and every allocator:
+1. the store invariant holds afterwards (ordered, reduced, duplicate free, tables consistent with
+   the level numbers written by `update_levels`, reference counts exact) and the number of levels
+   is unchanged;
+2. **the requested order is established**: if `x` occurs before `y` in `order`, then `x` is at a
+   smaller level than `y` in the new level→variable map;
+3. **every handle keeps its function**: the diagram `t'` an externally referenced slot denotes
+   afterwards is in normal form, and under every assignment `ρ` of the *variables* it evaluates
+   (with the new level→variable map) to what the old diagram `t` evaluated to (with the old map). -/
+theorem setVarOrderS_correct {ext : Nat → Nat} {s : SStore} {al : Heap → Nat}
+    {ord : List Nat → List Nat} (hal : AllocOK al) (hord : OrderOK ord) (hinv : Inv ext s)
+    (l2v order : List Nat) (hl2v : l2v.length = s.tables.length)
+    (hnd : order.Nodup) (hmem : ∀ v ∈ order, v ∈ l2v) :
+    let res := setVarOrderS al ord s l2v order
+    (Inv ext res.1 ∧ res.1.tables.length = s.tables.length) ∧
+    (∀ i j (hij : i < j) (hj : j < order.length), ∃ p q, p < q ∧ q < s.tables.length ∧
+      res.2.getD p 0 = order[i] ∧ res.2.getD q 0 = order[j]) ∧
+    (∀ k t, 0 < ext k → Denotes s.h.abs (.inner k) t →
+      ∃ t', Denotes res.1.h.abs (.inner k) t' ∧ NF 0 t' ∧
+        ∀ ρ : Nat → Bool, t'.eval (fun p => ρ (res.2.getD p 0)) = t.eval (fun l => ρ (l2v.getD l 0))) := by
+  intro res
+  obtain ⟨h1, h2⟩ := order_levels_ok hnd hmem
+  rw [hl2v] at h2
+  have hspec := setVarOrderS_spec hal hord hinv l2v order hl2v h1 h2
+  obtain ⟨htlen, htlt, htnd⟩ := sortOrder_perm s.tables.length _ h1 h2
+  generalize htg : sortOrder s.tables.length (order.map fun v => l2v.idxOf v) = target at *
+  have hgetD : ∀ a (ha : a < s.tables.length), target.getD a 0 = target[a]'(htlen ▸ ha) :=
+    fun a ha => by simp [List.getD_eq_getElem?_getD, List.getElem?_eq_getElem (htlen ▸ ha)]
+  have htlt' : ∀ a, a < s.tables.length → target.getD a 0 < s.tables.length := fun a ha => by
+    rw [hgetD a ha]; exact htlt _ (List.getElem_mem _)
+  have htinj : ∀ a b, a < s.tables.length → b < s.tables.length →
+      target.getD a 0 = target.getD b 0 → a = b := by
+    intro a b ha hb e
+    rw [hgetD a ha, hgetD b hb] at e
+    have hpw := List.pairwise_iff_getElem.mp (List.nodup_iff_pairwise_ne.mp htnd)
+    rcases Nat.lt_trichotomy a b with c | c | c
+    · exact absurd e (hpw a b _ _ c)
+    · exact c
+    · exact absurd e.symm (hpw b a _ _ c)
+  refine ⟨⟨hspec.inv, hspec.len⟩, ?_, ?_⟩
+  · intro i j hij hj
+    have hi : i < order.length := by omega
+    -- the old levels of the two variables
+    have hai := hmem _ (List.getElem_mem hi)
+    have haj := hmem _ (List.getElem_mem hj)
+    have hli : l2v.idxOf order[i] < s.tables.length := hl2v ▸ List.idxOf_lt_length_of_mem hai
+    have hlj : l2v.idxOf order[j] < s.tables.length := hl2v ▸ List.idxOf_lt_length_of_mem haj
+    have hresp := sortOrder_respects s.tables.length (order.map fun v => l2v.idxOf v) h1 h2 i j hij
+      (by simpa using hj)
+    simp only [List.getElem_map, htg] at hresp
+    refine ⟨target.getD (l2v.idxOf order[i]) 0, target.getD (l2v.idxOf order[j]) 0, ?_,
+      htlt' _ hlj, ?_, ?_⟩
+    · rw [hgetD _ hli, hgetD _ hlj]; exact hresp
+    · rw [hspec.placed' htlt' htinj hli]
+      have := List.getElem_idxOf (List.idxOf_lt_length_of_mem hai)
+      simpa [List.getD_eq_getElem?_getD, List.getElem?_eq_getElem (List.idxOf_lt_length_of_mem hai)] using this
+    · rw [hspec.placed' htlt' htinj hlj]
+      have := List.getElem_idxOf (List.idxOf_lt_length_of_mem haj)
+      simpa [List.getD_eq_getElem?_getD, List.getElem?_eq_getElem (List.idxOf_lt_length_of_mem haj)] using this
+  · intro k t hk hd
+    obtain ⟨nd, hnd'⟩ := Option.ne_none_iff_exists'.mp (hspec.inv.live_of_ext hk)
+    obtain ⟨t', ht'⟩ := hspec.inv.total _ k nd hnd' (Nat.le_refl _)
+    refine ⟨t', ht', hspec.inv.nf ht', fun ρ => ?_⟩
+    have e1 := hspec.eval k hk ρ _ (ev_of_den hd _)
+    exact (e1.functional (ev_of_den ht' _)).symm
+
+/-- non-vacuity: `sIte` (`f = x0 ? x1 : x2`), request "x2 above x0". (`#eval` gives the new
+level→variable map `[1, 2, 0]`: `x1` stays on top — the placement that needs the fewest swaps —,
+`x2` is above `x0`; the `reorder-store` driver prints it. `bubblePass` is not kernel-reducible,
+so the value is not restated here as a `decide` example.) -/
+example : Inv extIte (setVarOrderS Heap.firstFree id sIte [0, 1, 2] [2, 0]).1 :=
+  (setVarOrderS_correct allocOK_firstFree orderOK_id sIte_inv [0, 1, 2] [2, 0] rfl
+    (by decide) (by decide)).1.1
 
 /-! ## regression witnesses (the code before 1415cc0 and two mutations)
 
